@@ -291,6 +291,12 @@ def main():
                 core = [c for c in cmds if c[0] not in ("EHLO", "VRFY", "HELP")]
                 for n in (1, 2):
                     seqs += [list(s) for s in itertools.product(cmds, repeat=n)]
+                if not thorough:
+                    # quick: triples over a representative third of the shapes (every verb class, every kind of address)
+                    pick = lambda xs, f: [x for x in xs if f(x)]
+                    core = [c for c in core if c[1] is None and c[0] != "XXXX"] + \
+                           [("MAIL", x) for x in (SENDERS[0], SENDERS[1], SENDERS[3], SENDERS[-1])] + \
+                           [("RCPT", x) for x in (RCPTS[0], RCPTS[5], RCPTS[8], RCPTS[9], RCPTS[-2], RCPTS[-1])]
                 seqs += [list(s) for s in itertools.product(core, repeat=3)]
             else:
                 for n in (2, 3):
